@@ -19,7 +19,7 @@ Cfgs == {"A", "B", "C"}          \* C has the same array shapes as A (grids, q-p
 Quantities == {"modulus_adiabatic", "modulus_isothermal", "tp_bulk_vrh", "tp_vp", "tp_volumes", "compliances"}
 Writes == {<<"tp", "cij">>, <<"tp", "bm_VRH">>, <<"tv", "p">>}
 Seeds == {"0", "1", "2", "random"}
-Cwds == {"empty", "junk", "dir_named_like_system"}
+Cwds == {"empty", "junk", "dir_named_like_system", "shadow_data"}   \* shadow_data: entries named like the package's own data files
 
 VARIABLES env,      \* [seed, cwd] of the process
           wd,       \* the process's current working directory ("start" = where it was started)
